@@ -75,7 +75,7 @@ def run(ctx, params):
   if params["kind"] == "gen":
     for i in range(params["n"]):
       rng = ctx.rng("doc", params["shard"], i)
-      adoc0, classes = model_docs.generate(rng, "text", None, p_markup=0.15, arrow=(i % 3 == 0), p_anim=0.15)
+      adoc0, classes = model_docs.generate(rng, "text", None, p_markup=0.15, arrow=(i % 3 == 0), p_anim=0.15, p_uspace=0.08 if i % 2 else 0.0)
       style_spans(rng, adoc0, classes)
       s = build.dumps(adoc0)
       _cuework.check_doc(ctx, build.build_doc(adoc0), {"doc": s}, {"C07"}, classes)
